@@ -202,6 +202,116 @@ def check_layout_invariance(ctx, rng, n):
                      {"part": PART, "kind": "layout", "plain": L.cps(plain), "fancy": L.cps(fancy), "fv": fv})
 
 
+def _strip_loc(x):
+    if isinstance(x, dict):
+        return {k: _strip_loc(v) for k, v in x.items() if k != "loc"}
+    if isinstance(x, (list, tuple)):
+        return [_strip_loc(v) for v in x]
+    return x
+
+
+def _walk(node):
+    from py_gql.lang import ast as A
+    if isinstance(node, A.Node):
+        yield node
+        for attr in node.__slots__:
+            if attr not in ("source", "loc"):
+                yield from _walk(getattr(node, attr, None))
+    elif isinstance(node, (list, tuple)):
+        for x in node:
+            yield from _walk(x)
+
+
+def _reparse_node(node, fv):
+    """re-parse `node.source[loc[0]:loc[1]]` — the slice of the text THE NODE carries — with the matching entry point.
+    Returns None if it parses back to an equal node (positions aside), else a short reason."""
+    from py_gql.lang import ast as A
+    from py_gql.lang import parser as P
+    src, loc = node.source, node.loc
+    if src is None or loc is None:
+        return "skip"
+    piece = src[loc[0]:loc[1]]
+    if isinstance(piece, (bytes, bytearray)):
+        # the statement only asks that the spanned text parses back; the entry points accept bytes
+        try:
+            piece = bytes(piece).decode("utf8")
+        except UnicodeDecodeError:
+            return "slice-not-decodable"
+    want = _strip_loc(node.to_dict())
+    try:
+        if isinstance(node, A.Name):
+            return None if piece == node.value else "name-slice-differs"
+        if isinstance(node, A.Document):
+            got = P.parse(piece, allow_type_system=True, experimental_fragment_variables=fv)
+        elif isinstance(node, A.Value) or isinstance(node, A.Variable):
+            got = P.parse_value(piece)
+        elif isinstance(node, A.Type):
+            got = P.parse_type(piece)
+        elif isinstance(node, A.Definition):
+            got = P.parse(piece, allow_type_system=True, experimental_fragment_variables=fv).definitions[0]
+        elif isinstance(node, A.SelectionSet):
+            got = P.parse(piece).definitions[0].selection_set
+        elif isinstance(node, A.Field):
+            got = P.parse("{" + piece + "}").definitions[0].selection_set.selections[0]
+        else:
+            return "skip"
+    except Exception as e:  # noqa
+        return "reparse-raises-%s" % type(e).__name__
+    return None if _strip_loc(got.to_dict()) == want else "reparse-differs"
+
+
+NON_ASCII_DOCS = [
+    "# \xe9\n{ a }", "# \U0001F600\n{ a(b: 1) }", "{ a(b: \"\xe9\") c }", "{ a(b: \"\U0001F600\", c: [1, 2]) d }", "# e\u0301\n{ a { b } }",
+    "\"\xe9\" type A { a: Int }", "\"\"\"\n\U0001F600\n\"\"\" type A { \"e\u0301\" a(b: Int = 1): [Int!]! }", "{ a } # \u2028\nquery Q { b }",
+    "query Q($v: String = \"\u0663\") { a(b: $v) } # \xe9\nfragment F on T { c }", "\ufeff{ a(b: \"\xe9\\u00e9\") \ufeff c }",
+]
+
+
+def check_node_source(ctx, rng, n):
+    """every node carries the text it came from: `node.source[loc[0]:loc[1]]` parses back to an equal node — for str AND
+    UTF-8 bytes submissions, with non-ASCII characters (BMP, astral, combining) in comments / strings / descriptions
+    before the node."""
+    from gen import document as gd
+    from py_gql.lang import parser as P
+    from py_gql.exc import GraphQLSyntaxError
+    docs = [(t, False) for t in NON_ASCII_DOCS]
+    for _ in range(n):
+        ts = rng.random() < 0.5
+        fv = rng.random() < 0.3
+        toks = gd.gen_document(rng, size=rng.randint(1, 3), executable=(not ts) or rng.random() < 0.7, type_system=ts,
+                               fragment_variables=fv, max_depth=rng.randint(1, 3))
+        text = L.render(rng, [(c, l, None) for c, l in toks], comments=0.7)
+        docs.append((text, fv))
+    for text, fv in docs:
+        subs = [("str", text)]
+        try:
+            subs.append(("bytes", text.encode("utf8")))
+        except UnicodeEncodeError:
+            pass
+        for label, sub in subs:
+            ctx.count()
+            try:
+                doc = P.parse(sub, allow_type_system=True, experimental_fragment_variables=fv)
+            except GraphQLSyntaxError:
+                ctx.stat("node-source:%s:rejected" % label)
+                continue
+            except Exception as e:  # noqa
+                ctx.fail("internal:%s:node-source:%s" % (type(e).__name__, label), "parse raises %s" % type(e).__name__,
+                         {"part": PART, "kind": "node_source", "text": L.cps(text), "submit": label, "fv": fv})
+                continue
+            ctx.stat("node-source:%s:%s" % (label, "non-ascii" if any(ord(c) > 127 for c in text) else "ascii"))
+            ctx.nontrivial(("nodesrc", label, text))
+            for node in _walk(doc):
+                why = _reparse_node(node, fv)
+                if why in (None, "skip"):
+                    continue
+                ctx.fail("node-source-slice:%s:%s:%s" % (label, type(node).__name__, why),
+                         "node.source[loc[0]:loc[1]] does not parse back to the node (%s input)" % label,
+                         {"part": PART, "kind": "node_source", "text": L.cps(text), "submit": label, "fv": fv,
+                          "node": type(node).__name__, "loc": list(node.loc)})
+                break
+
+
 def escape_lexemes(rng, n):
     out = []
     for e in list(L.ESCAPES) + list("acdeghijklmopqsvwxyzABFNRTU0'` \n\t"):
@@ -273,6 +383,8 @@ def run(ctx):
     check_token_spans(ctx, rng, ctx.n(500, 5000))
     if ctx.time_left() > 5:
         check_layout_invariance(ctx, rng, ctx.n(150, 1500))
+    if ctx.time_left() > 5:
+        check_node_source(ctx, rng, ctx.n(80, 800))
 
 
 def replay(ctx, data):
@@ -293,6 +405,16 @@ def replay(ctx, data):
         before = len(ctx.found)
         L.oracle_single_lexemes(ctx, [L.from_cps(inp.get("text", []))], "replay", part=PART)
         return len(ctx.found) == before
+    if kind == "node_source":
+        from py_gql.lang import parser as P
+        text = L.from_cps(inp.get("text", []))
+        sub = text.encode("utf8") if inp.get("submit") == "bytes" else text
+        fv = bool(inp.get("fv"))
+        try:
+            doc = P.parse(sub, allow_type_system=True, experimental_fragment_variables=fv)
+        except Exception:  # noqa
+            return True
+        return all(_reparse_node(nd, fv) in (None, "skip") for nd in _walk(doc))
     if kind == "token_kinds":
         t = L.from_cps(inp.get("text", []))
         r = L.real_lex(t)
